@@ -55,6 +55,10 @@ pub struct Case {
     pub memval: Option<u16>,
     pub choices: Vec<u8>,
     pub label_off: u16,
+    /// explicit memory contents before the step (physical address, value)
+    pub pre_mem: Vec<(u32, u8)>,
+    /// do not run fixup (registers are exactly as given)
+    pub exact: bool,
 }
 
 pub fn regs_s() -> BoxedStrategy<Regs> {
@@ -89,7 +93,7 @@ pub fn label_off_s() -> BoxedStrategy<u16> {
 
 pub fn case_s(insn: BoxedStrategy<Insn>) -> BoxedStrategy<Case> {
     (insn, regs_s(), fix_s(), proptest::option::weighted(0.5, pt::u16s()), choices_s(24), label_off_s())
-        .prop_map(|(insn, regs, fix, memval, choices, label_off)| Case { insn, regs, fix, memval, choices, label_off })
+        .prop_map(|(insn, regs, fix, memval, choices, label_off)| Case { insn, regs, fix, memval, choices, label_off, pre_mem: vec![], exact: false })
         .boxed()
 }
 
@@ -98,6 +102,9 @@ pub fn case_s(insn: BoxedStrategy<Insn>) -> BoxedStrategy<Case> {
 /// classes, string pointers).
 pub fn fixup(case: &Case) -> Regs {
     let mut r = case.regs;
+    if case.exact {
+        return r;
+    }
     let insn = &case.insn;
     let mut seg_idx: Option<usize> = None;
     let mut cur_off: Option<u16> = None;
@@ -238,7 +245,8 @@ pub fn source_for(case: &Case) -> (String, Vec<(String, u16)>) {
 pub fn case_to_json(c: &Case) -> Value {
     json!({"insn": insn_to_json(&c.insn), "regs": c.regs.to_json(),
         "fix": [c.fix.off_class, c.fix.phys_class, c.fix.sp_class, c.fix.str_class],
-        "memval": c.memval, "choices": c.choices, "label_off": c.label_off})
+        "memval": c.memval, "choices": c.choices, "label_off": c.label_off,
+        "pre_mem": c.pre_mem.iter().map(|(a, v)| json!([a, v])).collect::<Vec<_>>(), "exact": c.exact})
 }
 pub fn case_from_json(v: &Value) -> Case {
     let f: Vec<u8> = v["fix"].as_array().map(|a| a.iter().map(|x| x.as_u64().unwrap_or(0) as u8).collect()).unwrap_or(vec![0; 4]);
@@ -249,6 +257,8 @@ pub fn case_from_json(v: &Value) -> Case {
         memval: v["memval"].as_u64().map(|x| x as u16),
         choices: v["choices"].as_array().map(|a| a.iter().map(|x| x.as_u64().unwrap_or(0) as u8).collect()).unwrap_or_default(),
         label_off: v["label_off"].as_u64().unwrap_or(0) as u16,
+        pre_mem: v["pre_mem"].as_array().map(|a| a.iter().map(|p| (p[0].as_u64().unwrap_or(0) as u32, p[1].as_u64().unwrap_or(0) as u8)).collect()).unwrap_or_default(),
+        exact: v["exact"].as_bool().unwrap_or(false),
     }
 }
 
@@ -410,7 +420,7 @@ pub fn run_case(wk: &mut Worker, case: &Case, openq: &Quirks, call_stack: &[usiz
     mach.call_stack = call_stack.to_vec();
     let env = Env { data_labels: &labels, current: start, string_straddle_both: true };
     // optional value at the (reference) operand address
-    let mut pre: Vec<(u32, u8)> = Vec::new();
+    let mut pre: Vec<(u32, u8)> = case.pre_mem.clone();
     if let Some(v) = case.memval {
         let addr = if let Some((_, m)) = case.insn.mem_operand() {
             Some(mach.ea_phys(&m))
